@@ -36,6 +36,7 @@ PROPS["C04"] = {
             "TestC04Encode": T(24000, 500000),
             "TestC04Sqrt": T(8000, 150000),
             "TestC04Prog": T(24000, 600000),
+            "TestC04ParSqrt": T(600, 20000), "TestC04ParProg": T(1000, 60000),
             "TestC04Bytes": T(24000, 500000),
             "TestC04Consts": LIST(),
         },
